@@ -126,20 +126,187 @@ def c_accept(a):
     return "(AValid %s)" % clist("(mkRange %s %s %s)" % (cstr(ts), cN(q), cbool(p)) for ts, q, p in a)
 
 
+class HtmlObj:
+    """a value that declares itself safe HTML (html_escape honours __html__ by design)"""
+
+    def __init__(self, s):
+        self.s = s
+
+    def __html__(self):
+        return self.s
+
+    def __str__(self):
+        return self.s
+
+
+class StrObj:
+    """an arbitrary object whose str() is the text"""
+
+    def __init__(self, s):
+        self.s = s
+
+    def __str__(self):
+        return self.s
+
+
+def pyval(x):
+    """JSON-able encoding of values outside the model's domain (str / None)"""
+    if isinstance(x, dict):
+        if "$int" in x:
+            return x["$int"]
+        if "$bytes" in x:
+            return bytes.fromhex(x["$bytes"])
+        if "$html" in x:
+            return HtmlObj(x["$html"])
+        if "$obj" in x:
+            return StrObj(x["$obj"])
+        if "$tuple" in x:
+            return tuple(x["$tuple"])
+        if "$none" in x:
+            return None
+    return x
+
+
+def is_text(x):
+    return x is None or isinstance(x, str)
+
+
+def text_of(x):
+    """what str() / the escapers make of a value that is not a str (for markers and messages)"""
+    v = pyval(x)
+    if v is None:
+        return ""
+    if isinstance(v, bytes):
+        return v.decode("utf-8", "replace")
+    return str(v)
+
+
+def after_of(case, what, default):
+    for a in case.get("after") or []:
+        if a[0] == what:
+            default = a[1]
+    return default
+
+
+def effective(case):
+    """what the case text says the instance looks like when it is called (class data, sub-class overrides,
+    constructor arguments, assignments after construction) - independent of the implementation"""
+    from webob import exc
+    base = getattr(exc, case["cls"])
+    sub = case.get("sub") or {}
+    ef = {"code": sub.get("code", base.code), "title": sub.get("title", base.title),
+          "explanation": after_of(case, "explanation", sub.get("explanation", base.explanation)),
+          "empty": bool(after_of(case, "empty_body", sub.get("empty_body", base.empty_body))),
+          "detail": after_of(case, "detail", case.get("detail")),
+          "comment": after_of(case, "comment", case.get("comment"))}
+    t = after_of(case, "body_template", None)
+    if t is None:
+        t = case.get("tmpl")
+    if t is None:
+        t = sub.get("template")
+    if t is None:
+        ef["template"], ef["custom"] = base.body_template_obj.template, base.body_template_obj.template != _default_template()
+    else:
+        ef["template"], ef["custom"] = t, True
+    return ef
+
+
+def exc_class(case):
+    from webob import exc
+    base = getattr(exc, case["cls"])
+    if case.get("via_status_map") and exc.status_map.get(base.code) is base:
+        base = exc.status_map[base.code]
+    sub = case.get("sub")
+    if sub:
+        attrs = {k: sub[k] for k in ("code", "title", "explanation", "empty_body", "default_content_type", "default_charset")
+                 if k in sub}
+        if "template" in sub:
+            attrs["body_template_obj"] = string.Template(sub["template"])
+        return type("Sub" + base.__name__, (base,), attrs)
+    return base
+
+
+def shape_headers(hs, how):
+    from webob.multidict import MultiDict
+    from webob.headers import ResponseHeaders
+    pairs = [tuple(h) for h in hs or []]
+    if how == "dict":
+        return dict(pairs)
+    if how == "tuple":
+        return tuple(pairs)
+    if how == "multidict":
+        return MultiDict(pairs)
+    if how == "respheaders":
+        return ResponseHeaders(pairs)
+    if how == "iter":
+        return iter(pairs)
+    if how == "empty-list":
+        return pairs
+    return pairs or None
+
+
+def alt_json_formatter(body, status, title, environ):
+    return {"m": body, "s": status, "t": title, "p": environ.get("PATH_INFO")}
+
+
 def build_exc(case):
     from webob import exc
-    cls = getattr(exc, case["cls"])
+    cls = exc_class(case)
+    move = issubclass(cls, exc._HTTPMove)
     kw = {}
-    if case.get("tmpl") is not None:
-        kw["body_template"] = case["tmpl"]
-    if case.get("location") is not None and issubclass(cls, exc._HTTPMove):
-        kw["location"] = case["location"]
-    elif case.get("add_slash") and issubclass(cls, exc._HTTPMove):
+    headers = shape_headers(case.get("headers"), case.get("headers_shape"))
+    detail, comment = pyval(case.get("detail")), pyval(case.get("comment"))
+    if case.get("positional"):
+        args = [detail, headers, comment, case.get("tmpl")]
+        if move and case.get("location") is not None:
+            args.append(case["location"])
+    else:
+        args = []
+        kw.update(detail=detail, headers=headers, comment=comment)
+        if case.get("tmpl") is not None:
+            kw["body_template"] = case["tmpl"]
+        if move and case.get("location") is not None:
+            kw["location"] = case["location"]
+    if move and case.get("location") is None and case.get("add_slash"):
         kw["add_slash"] = True
-    e = cls(detail=case.get("detail"), headers=[tuple(h) for h in case.get("headers") or []] or None,
-            comment=case.get("comment"), **kw)
-    if case.get("body") is not None:
-        e.body = bytes.fromhex(case["body"])
+    raw = None if case.get("body") is None else bytes.fromhex(case["body"])
+    how = case.get("body_how") or "after"
+    if not move:
+        kw.update(case.get("kw") or {})
+        if case.get("json_formatter"):
+            kw["json_formatter"] = alt_json_formatter
+        if raw is not None and how != "after":
+            if how == "kw_body":
+                kw["body"] = raw
+            elif how == "kw_text":
+                try:
+                    kw["text"] = raw.decode("utf-8")
+                except UnicodeDecodeError:
+                    kw["body"] = raw
+            elif how == "app_iter":
+                kw["app_iter"] = [raw]
+            elif how == "app_iter2":
+                kw["app_iter"] = [raw[:len(raw) // 2], raw[len(raw) // 2:]]
+            elif how == "app_iter_gen":
+                kw["app_iter"] = (x for x in [raw[:1], raw[1:]])
+    try:
+        e = cls(*args, **kw)
+    except TypeError:
+        if "text" not in kw:
+            raise
+        kw["body"] = kw.pop("text").encode("utf-8")     # no charset on this class: text= is refused, body= is not
+        e = cls(*args, **kw)
+    if raw is not None and (move or how == "after"):
+        e.body = raw
+    for a in case.get("after") or []:
+        if a[0] == "header":
+            e.headers[a[1]] = a[2]
+        elif a[0] == "body_template":
+            e.body_template_obj = string.Template(a[1])
+        elif a[0] == "json_formatter":
+            e.json_formatter = alt_json_formatter
+        else:
+            setattr(e, a[0], pyval(a[1]))
     return cls, e
 
 
@@ -148,10 +315,40 @@ def build_req(case):
     req = Request.blank(case.get("url") or "/p/q?x=1")
     req.environ["REQUEST_METHOD"] = case.get("method") or "GET"
     for k, v in (case.get("environ") or {}).items():
-        req.environ[k] = v
+        req.environ[k] = pyval(v)
     if case.get("accept") is not None:
+        if case.get("accept_via_property"):
+            try:
+                req.accept = case["accept"]
+            except Exception:  # noqa
+                pass
         req.environ["HTTP_ACCEPT"] = case["accept"]
     return req
+
+
+def answer(e, req, via=None):
+    """the ways a WSGI stack reaches the exception"""
+    from webob import exc, Response
+    if via == "generate_response":
+        return req.get_response(e.generate_response)
+    if via == "wsgi_response":
+        return req.get_response(e.wsgi_response)
+    if via == "wrapper":
+        return req.get_response(exc.HTTPException("wrapped", e))
+    if via == "raise":
+        try:
+            raise e
+        except exc.HTTPException as caught:
+            return req.get_response(caught)
+    if via == "middleware":
+        def app(environ, start_response):
+            raise e
+        status, headers, app_iter, exc_info = req.call_application(exc.HTTPExceptionMiddleware(app), catch_exc_info=True)
+        return Response(status=status, headerlist=list(headers), app_iter=app_iter)
+    if via == "call_application":
+        status, headers, app_iter = req.call_application(e)
+        return Response(status=status, headerlist=list(headers), app_iter=app_iter)
+    return req.get_response(e)
 
 
 def resolved_location(cls, resp):
@@ -193,7 +390,7 @@ def run_case(case):
     """-> (cls, exc object after the call, request, response)"""
     cls, e = build_exc(case)
     req = build_req(case)
-    resp = req.get_response(e)
+    resp = answer(e, req, case.get("iface"))
     return cls, e, req, resp
 
 
@@ -205,24 +402,66 @@ def observe(case):
         return Err(type(ex).__name__)
 
 
+def in_model_domain(case):
+    """the Gallina model speaks about str / None texts, str environ values, latin-1 header names, a status line
+    made of the class's code and title, the stock json_formatter and bodies given as bytes"""
+    vals = [case.get("detail"), case.get("comment")] + [a[1] for a in case.get("after") or [] if a[0] in ("detail", "comment")]
+    if not all(is_text(v) for v in vals):
+        return False
+    if not all(isinstance(v, str) for v in (case.get("environ") or {}).values()):
+        return False
+    for st in case.get("history") or []:
+        if not all(isinstance(v, str) for v in (st.get("environ") or {}).values()):
+            return False
+    names = [h[0] for h in case.get("headers") or []] + [a[1] for a in case.get("after") or [] if a[0] == "header"]
+    if any(ord(ch) > 255 for n in names for ch in n):
+        return False
+    if case.get("json_formatter") or any(a[0] in ("status", "json_formatter") for a in case.get("after") or []):
+        return False
+    if case.get("body") is not None and (case.get("body_how") or "after") in ("app_iter2", "app_iter_gen"):
+        return False
+    return True
+
+
+def class_literal(case, e):
+    """None: the class is looked up in the regenerated table; else the instance's own class data (sub-classes,
+    attributes assigned after construction)"""
+    from webob import exc
+    if not case.get("sub") and not any(a[0] in ("explanation", "body_template", "empty_body") for a in case.get("after") or []):
+        return None
+    return "(mkCls %s %d %s %s %s %s %s true false true)" % (
+        cstr(case["cls"]), e.code, cstr(e.title), cstr(e.explanation), cstr(e.body_template_obj.template),
+        cbool(exc.WSGIHTTPException.body_template_obj is not e.body_template_obj), cbool(bool(e.empty_body)))
+
+
+def instance_literals(case):
+    """(class literal, template option, detail, comment, explicit body) of the instance as constructed"""
+    cls, e = build_exc(case)
+    ocl = class_literal(case, e)
+    tmpl = None if ocl is not None or case.get("tmpl") is None else cstr(case["tmpl"])
+    explicit = None
+    if isinstance(e.app_iter, list) and e.has_body:
+        explicit = cstr(b"".join(e.app_iter))
+    return copt(ocl), copt(tmpl), cstr(e.detail or ""), cstr(e.comment or ""), copt(explicit)
+
+
 def model_literal(case):
     """Coq input of the `call` correspondence: the state the body is made from, read off the real objects."""
+    ocl, tmpl, detail, comment, explicit = instance_literals(case)
     cls, e, req, resp = run_case(case)
     headers = serving_headers(cls, e, resp)
     environ = [(k, v) for k, v in req.environ.items() if isinstance(v, str)]
     acc = accept_model_input(req.environ.get("HTTP_ACCEPT", ""))
-    inp = "(mkInp %s %s %s %s)" % (cstr(case.get("detail") or ""), cstr(case.get("comment") or ""),
-                                   clist(cpair(cstr(k), cstr(v)) for k, v in headers),
+    inp = "(mkInp %s %s %s %s)" % (detail, comment, clist(cpair(cstr(k), cstr(v)) for k, v in headers),
                                    clist(cpair(cstr(k), cstr(v)) for k, v in environ))
-    body = case.get("body")
-    return "(%s, %s, %s, %s, %s, %s)" % (
-        cstr(case["cls"]), copt(None if case.get("tmpl") is None else cstr(case["tmpl"])), inp, c_accept(acc),
-        cbool(req.environ["REQUEST_METHOD"] == "HEAD"), copt(None if body is None else cstr(bytes.fromhex(body))))
+    return "(%s, %s, %s, %s, %s, %s, %s)" % (cstr(case["cls"]), ocl, tmpl, inp, c_accept(acc),
+                                             cbool(req.environ["REQUEST_METHOD"] == "HEAD"), explicit)
 
 
-CALL_FN = ("(fun c => match c with (nm, t, i, a, hd, ex) => match find_class classes nm with "
-           "Some cl => resp_val (call cfg (with_template cl t) i a hd ex) | None => VNone end end)")
-CALL_TY = "(str * option str * inp * accept_in * bool * option str)"
+PICK_CLS = ("match ocl with Some c => Some c | None => option_map (fun c => with_template c t) (find_class classes nm) end")
+CALL_FN = ("(fun c => match c with (nm, ocl, t, i, a, hd, ex) => match %s with "
+           "Some cl => resp_val (call cfg cl i a hd ex) | None => VNone end end)" % PICK_CLS)
+CALL_TY = "(str * option excls * option str * inp * accept_in * bool * option str)"
 
 
 # =========================================================================== generators
@@ -429,7 +668,7 @@ def rand_accept(rng):
     return render_accept(rng, st), ref_format(st)
 
 
-def rand_case(rng, names, want=None, wf_only=False):
+def rand_case(rng, names, want=None, wf_only=False, knobs=True, outside=False):
     from webob import exc
     name = rng.choice(names)
     cls = getattr(exc, name)
@@ -471,7 +710,112 @@ def rand_case(rng, names, want=None, wf_only=False):
     case["fmt"] = fmt
     if not cls.empty_body and rng.random() < 0.07:
         case["body"] = rand_text(rng).encode("utf-8", "surrogatepass").hex() or "00"
+    if knobs:
+        decorate(rng, case, cls, outside)
     return case
+
+
+SUB_EXPLANATIONS = ["plain words", "a <b>bold</b> claim & more", "caf\xe9 \u20ac \"quoted\" 'single'", "--> <!-- x", "", "line\nbreak <br/>"]
+SUB_TITLES = ["Custom Reason", "Caf\xe9", "I'm a teapot", "Nothing Here & There"]
+OUTSIDE_VALUES = [{"$int": 5}, {"$int": 0}, {"$bytes": "3c623ec3a9"}, {"$bytes": "3c623eff"}, {"$obj": "<i>obj</i> & \"q\""},
+                  {"$obj": "-->"}, {"$html": "<b>declared safe</b>"}, "a\ud800<", "\udcff-->", {"$tuple": ["<", 1]}, {"$none": True}]
+
+
+def decorate(rng, case, cls, outside=False):
+    """configurations, argument shapes and (outside=True) values outside the model's domain"""
+    from webob import exc
+    move = issubclass(cls, exc._HTTPMove)
+    r = rng.random
+    if r() < 0.2:                      # a sub-class overriding what sub-classes are meant to override
+        sub = {}
+        if r() < 0.6:
+            sub["explanation"] = rng.choice(SUB_EXPLANATIONS)
+        if r() < 0.4 and not cls.empty_body:
+            sub["code"], sub["title"] = rng.choice([499, 418, 299, cls.code]), rng.choice(SUB_TITLES)
+        if r() < 0.25:
+            sub["template"] = rand_wf_template(rng)
+        if r() < 0.1:
+            sub["empty_body"] = not cls.empty_body if cls.code not in EMPTY_CODES else True
+        if r() < 0.2:
+            sub["default_content_type"] = rng.choice([None, "application/xml", "text/plain"])
+        if r() < 0.2:
+            sub["default_charset"] = rng.choice([None, "latin-1", "utf-16"])
+        if sub:
+            case["sub"] = sub
+    if r() < 0.2:                      # assignments after construction
+        after = []
+        for _ in range(rng.randrange(1, 3)):
+            k = rng.choice(["detail", "comment", "explanation", "body_template", "header", "content_type", "charset", "empty_body",
+                            "status", "json_formatter", "location"])
+            if k in ("detail", "comment"):
+                after.append([k, rng.choice([None, rand_text(rng)])])
+            elif k == "explanation":
+                after.append([k, rng.choice(SUB_EXPLANATIONS)])
+            elif k == "body_template":
+                after.append([k, rng.choice([rand_wf_template(rng), _default_template()])])
+            elif k == "header":
+                after.append([k, rng.choice(["X_Hdr", "x_hdr", "X_HDR", "Allow"]), rand_text(rng).replace("\r", "").replace("\n", "")])
+            elif k == "content_type" and not cls.empty_body:
+                after.append([k, rng.choice(["application/xml", "text/plain", "image/png"])])
+            elif k == "charset" and not cls.empty_body and not case.get("sub", {}).get("default_content_type", 1) is None:
+                pass
+            elif k == "empty_body" and r() < 0.3:
+                after.append([k, True])
+            elif k == "status" and not cls.empty_body:
+                after.append([k, rng.choice(["%d Nothing Here" % (cls.code or 500), "%d N&M" % (cls.code or 500), {"$int": 410}])])
+            elif k == "json_formatter":
+                after.append([k, "alt"])
+            elif k == "location" and move and case.get("location") is not None:
+                after.append([k, rng.choice(["/moved", "http://example.net/n?<q>", "rel"])])
+        if after:
+            case["after"] = after
+    if r() < 0.25:
+        case["positional"] = True
+    if case.get("headers") and r() < 0.5:
+        case["headers_shape"] = rng.choice(["dict", "tuple", "multidict", "respheaders", "iter"])
+    elif not case.get("headers") and r() < 0.1:
+        case["headers_shape"] = "empty-list"
+    if case.get("headers") and r() < 0.3:      # the same name again in another case: the last one fills the slot
+        k, v = rng.choice(case["headers"])
+        if k.lower() not in ("content-type", "location"):
+            case["headers"].append([k.swapcase(), rand_text(rng).replace("\r", "").replace("\n", "")])
+    if not move:
+        if r() < 0.15:
+            case["kw"] = rng.choice([{"content_type": "application/xml"}, {"charset": "latin-1"}, {"conditional_response": True},
+                                     {"content_type": "text/plain", "charset": "utf-16"}])
+        if r() < 0.05:
+            case["json_formatter"] = True
+    if case.get("body") is not None:
+        case["body_how"] = rng.choice(["after", "kw_body", "kw_text", "app_iter", "app_iter2", "app_iter_gen"])
+        if case["body_how"] == "kw_text" and (case.get("kw") or case.get("sub")):
+            case["body_how"] = "kw_body"       # text= is encoded in the instance's own charset
+    if case.get("tmpl") is None and r() < 0.05:
+        case["tmpl"] = _default_template()     # equal to the stock template, but not the stock template object
+    if r() < 0.3:
+        case["iface"] = rng.choice(["wsgi_response", "wrapper", "raise", "middleware", "call_application"])
+    if r() < 0.3:
+        case["url"] = rng.choice(URLS)
+    if r() < 0.1:
+        case["via_status_map"] = True
+    if r() < 0.1:
+        case["accept_via_property"] = True
+    if outside and r() < 0.5:
+        for _ in range(rng.randrange(1, 3)):
+            slot_ = rng.choice(["detail", "comment", "environ", "hdrname", "after"])
+            if slot_ in ("detail", "comment"):
+                case[slot_] = rng.choice(OUTSIDE_VALUES)
+            elif slot_ == "environ":
+                case.setdefault("environ", {})[rng.choice(["HTTP_X_FOO", "X_lower", "CONTENT_TYPE"])] = rng.choice(OUTSIDE_VALUES[:7])
+            elif slot_ == "hdrname":
+                case.setdefault("headers", []).append([rng.choice(["\u212a", "\u212aey", "\u0130d", "X_\u017ftr"]), rand_text(rng, 4).replace("\r", "").replace("\n", "")])
+                if not case.get("tmpl") and not case.get("sub", {}).get("template"):
+                    case["tmpl"] = "<p>$k ${key} ${x_str} ${i\u0307d}</p>"
+                case.pop("headers_shape", None)
+            else:
+                case.setdefault("after", []).append([rng.choice(["detail", "comment"]), rng.choice(OUTSIDE_VALUES)])
+        if move and r() < 0.1:
+            case["location"] = rng.choice(["/x\r\nSet-Cookie: a=b", "\n", "http://e/\r"])
+            case.pop("add_slash", None)
 
 
 # =========================================================================== the oracle
@@ -562,59 +906,77 @@ def subst_markers(ev, table):
 
 
 def neutral_of(case, loc_real, req_real):
-    """the same response shape with every caller/request string replaced by an inert unique marker;
-    -> (neutral case, {marker: raw text})"""
+    """the same instance configuration and request with every caller/request text replaced by an inert unique
+    marker;  -> (neutral case, {marker: raw text})"""
+    import copy
     from webob import exc
     table = {}
-    n = {"cls": case["cls"], "tmpl": case.get("tmpl"), "method": "ZQMZQ", "accept": "text/html, zqazq/zqazq",
-         "url": case.get("url")}
+    n = copy.deepcopy({k: v for k, v in case.items() if k not in ("history", "fmt")})
+    n["method"], n["accept"] = "ZQMZQ", "text/html, zqazq/zqazq"
     table["ZQMZQ"] = req_real.environ["REQUEST_METHOD"]
     table["text/html, zqazq/zqazq"] = req_real.environ.get("HTTP_ACCEPT", "")
-    if case.get("detail"):
-        n["detail"] = "ZQDZQ"
-        table["ZQDZQ"] = case["detail"]
-    if case.get("comment"):
-        n["comment"] = "ZQCZQ"
-        table["ZQCZQ"] = case["comment"]
+
+    def mark(m, v):
+        table[m] = text_of(v)
+        return m
+    if pyval(case.get("detail")) not in (None, "", b"", 0):
+        n["detail"] = mark("ZQDZQ", case["detail"])
+    if pyval(case.get("comment")) not in (None, "", b"", 0):
+        n["comment"] = mark("ZQCZQ", case["comment"])
+    if (n.get("sub") or {}).get("explanation"):
+        n["sub"]["explanation"] = mark("ZQXZQ", n["sub"]["explanation"])
+    for i, a in enumerate(n.get("after") or []):
+        if a[0] == "explanation" and a[1]:
+            a[1] = mark("ZQY%dZQ" % i, a[1])
+        elif a[0] in ("detail", "comment") and pyval(a[1]) not in (None, "", b"", 0):
+            a[1] = mark("ZQA%dZQ" % i, a[1])
+        elif a[0] == "header" and a[1].lower() != "content-type":
+            a[2] = mark("ZQB%dZQ" % i, a[2])
+        elif a[0] == "location":
+            a[1] = "http://zqlzq/ZQLZQ"
     hs = []
     for i, (k, v) in enumerate(case.get("headers") or []):
         if k.lower() == "content-type":      # not a template slot (no identifier); decides how the body is encoded
             hs.append([k, v])
             continue
-        m = "ZQH%dZQ" % i
-        hs.append([k, m])
-        table[m] = v
+        hs.append([k, mark("ZQH%dZQ" % i, v)])
     n["headers"] = hs
     env = {}
     for i, (k, v) in enumerate(sorted((case.get("environ") or {}).items())):
-        m = "ZQE%dZQ" % i
-        env[k] = m
-        table[m] = v
+        env[k] = mark("ZQE%dZQ" % i, v)
     n["environ"] = env
     if issubclass(getattr(exc, case["cls"]), exc._HTTPMove):
+        n.pop("add_slash", None)
         n["location"] = "http://zqlzq/ZQLZQ"
         table["http://zqlzq/ZQLZQ"] = loc_real or ""
     return n, table
 
 
+def expected_headers(case):
+    """the extra headers the case text puts on the instance (constructor argument in its shape, assignments after
+    construction), independent of the implementation"""
+    pairs = [tuple(h) for h in case.get("headers") or []]
+    if case.get("headers_shape") == "dict":
+        pairs = list(dict(pairs).items())
+    for a in case.get("after") or []:
+        if a[0] == "header":
+            pairs = [p_ for p_ in pairs if p_[0].lower() != a[1].lower()] + [(a[1], a[2])]
+    return pairs
+
+
 def ref_message(cls, case, hs, req):
-    """the un-escaped body text the JSON form must carry: the class's template filled with explanation, detail,
-    comment, and (custom templates) environ / header values"""
-    comment = case.get("comment") or ""
-    args = {"explanation": cls.explanation, "detail": case.get("detail") or "", "comment": comment,
+    """the un-escaped body text the JSON form must carry: the instance's template filled with explanation, detail,
+    comment, and (custom templates) environ / header values - computed from the case text"""
+    ef = effective(case)
+    comment = ef["comment"] or ""
+    args = {"explanation": ef["explanation"], "detail": ef["detail"] or "", "comment": comment,
             "html_comment": "<!-- %s -->" % comment if comment else ""}
-    if case.get("tmpl") is not None:
-        t = case["tmpl"]
-        custom = True
-    else:
-        t = cls.body_template_obj.template
-        custom = t != _default_template()
-    if custom:
+    if ef["custom"]:
         for k, v in req.environ.items():
             args[k] = v if isinstance(v, str) else str(v)
         for k, v in hs:
             args[k.lower()] = v
-    return string.Template(t).safe_substitute(args)
+    return string.Template(ef["template"]).safe_substitute(args)
 
 
 def _default_template():
@@ -626,8 +988,43 @@ def has_ct_header(case):
     return any(k.lower() == "content-type" for k, _ in case.get("headers") or [])
 
 
+def all_values(case):
+    vals = [case.get("detail"), case.get("comment")] + [a[1] for a in case.get("after") or [] if a[0] in ("detail", "comment")]
+    vals += list((case.get("environ") or {}).values())
+    for st in case.get("history") or []:
+        vals += list((st.get("environ") or {}).values())
+    return vals
+
+
+def loose(case):
+    """some text is outside the model's domain (not a str / None): the exact-content oracles do not apply"""
+    return not all(is_text(v) for v in all_values(case))
+
+
+def declared_safe(case):
+    return any(isinstance(v, dict) and "$html" in v for v in all_values(case))
+
+
+def outside_statement(case, ex):
+    """failures on inputs the statement does not quantify over (recorded in design_notes/C18.md):
+    bytes that are not UTF-8 as detail/comment (JSON / plain form: UnicodeDecodeError from exc.no_escape);
+    a lone surrogate anywhere in the text of a plain-text body (UnicodeEncodeError from the UTF-8 encoding)"""
+    if isinstance(ex, UnicodeDecodeError):
+        for v in all_values(case):
+            if isinstance(v, dict) and "$bytes" in v:
+                try:
+                    bytes.fromhex(v["$bytes"]).decode("utf-8")
+                except UnicodeDecodeError:
+                    return True
+    if isinstance(ex, UnicodeEncodeError) and ex.encoding.lower().replace("-", "") == "utf8":
+        return True
+    return False
+
+
 def classify_exception(case, ex):
     if isinstance(ex, ValueError) and "Control characters are not allowed in location" in str(ex):
+        return None
+    if outside_statement(case, ex):
         return None
     if has_ct_header(case) and ((isinstance(ex, TypeError) and "without a charset" in str(ex))
                                 or isinstance(ex, (UnicodeEncodeError, LookupError))):
@@ -638,6 +1035,17 @@ def classify_exception(case, ex):
 
 def oracle_case(case):
     """The property on one request answered by a fresh instance.  None, or (key, message)."""
+    from webob import exc
+    loc = case.get("location")
+    if loc is not None and ("\r" in loc or "\n" in loc) and issubclass(getattr(exc, case["cls"]), exc._HTTPMove):
+        # the stated refusal: a redirect never accepts a location with CR / LF
+        try:
+            build_exc(case)
+        except ValueError:
+            return None
+        except Exception as ex:  # noqa
+            return ("location:crlf-other-exception", "location %r: %r instead of ValueError" % (loc, ex))
+        return ("location:crlf-accepted", "a redirect accepted the location %r" % loc)
     try:
         cls, e, req, resp = run_case(case)
     except Exception as ex:  # noqa
@@ -649,21 +1057,35 @@ def oracle_resp(case, cls, e, req, resp, check_made=True):
     """The property on one response `resp` to `req`; `e` is the instance the reference texts are taken from
     (in a history: the fresh replica, and byte equality with its answer is checked by the caller)."""
     body = resp.body
-    want_status = "%d %s" % (cls.code, cls.title)
-    if resp.status != want_status:
+    ef = effective(case)
+    want_status = "%d %s" % (ef["code"], ef["title"])
+    st = pyval(after_of(case, "status", None))
+    if isinstance(st, str):
+        want_status = st
+    if isinstance(st, int):
+        if not resp.status.startswith("%d " % st):
+            return ("status-line", "status line %r after status = %r" % (resp.status, st))
+        want_status = resp.status
+    elif resp.status != want_status:
         return ("status-line", "status line %r, the class says %r" % (resp.status, want_status))
+    for k, v in expected_headers(case):
+        if k.lower() in ("content-type", "content-length", "location"):
+            continue
+        if v not in resp.headers.getall(k):
+            return ("extra-header:not-sent", "the extra header %r: %r given to the exception is not on the response: %r"
+                    % (k, v, resp.headerlist))
     method = req.environ["REQUEST_METHOD"]
     if method == "HEAD":
         if body != b"":
             return ("head:body-not-empty", "HEAD response carries a body of %d bytes: %r" % (len(body), body[:80]))
         return None
-    if cls.code in EMPTY_CODES:
+    if int(resp.status[:3]) in EMPTY_CODES or ef["empty"]:
         if body != b"" and case.get("body") is None:
-            return ("bodyless-class:body-not-empty", "%s (%d) sent a body: %r" % (cls.__name__, cls.code, body[:80]))
+            return ("bodyless-class:body-not-empty", "%s (%s) sent a body: %r" % (cls.__name__, resp.status, body[:80]))
         return None
     if case.get("body") is not None:
         raw = bytes.fromhex(case["body"])
-        if raw != b"":
+        if raw != b"" or (case.get("body_how") in ("app_iter2", "app_iter_gen") and case["cls"] not in MOVE_NAMES()):
             if body != raw:
                 return ("explicit-body:altered", "explicit body %r was sent as %r" % (raw, body[:200]))
             return None
@@ -674,24 +1096,37 @@ def oracle_resp(case, cls, e, req, resp, check_made=True):
                 "Accept %r: Content-Type %r, expected %r" % (case.get("accept"), ctype, want))
     if ctype not in ("text/html", "application/json", "text/plain"):
         return ("format-choice:other-type", "Content-Type %r" % ctype)
-    with Serving(cls, e, resp):
-        made = {"text/html": e.html_body, "application/json": e.json_body, "text/plain": e.plain_body}[ctype](req.environ)
     try:
         text = body.decode(resp.charset or "utf-8")
     except Exception as ex:  # noqa
         text = None
-    if text is None or (check_made and text != made):
+    made = None
+    try:
+        with Serving(cls, e, resp):
+            made = {"text/html": e.html_body, "application/json": e.json_body, "text/plain": e.plain_body}[ctype](req.environ)
+    except Exception as ex:  # noqa
+        if not outside_statement(case, ex):
+            raise
+    if text is None or (check_made and made is not None and text != made):
         key = "content-type-header:body-not-in-declared-charset" if has_ct_header(case) else "body:not-in-declared-charset"
         return (key, "the body bytes %r are not the generated text %r in the declared charset %r (Content-Type %r)"
-                % (body[-40:], made[-30:], resp.charset, resp.headers.get("Content-Type")))
+                % (body[-40:], (made or "")[-30:], resp.charset, resp.headers.get("Content-Type")))
     if ctype == "text/html":
-        return oracle_html(case, cls, resolved_location(cls, resp), req, text)
+        return oracle_html(case, cls, resolved_location(cls, resp), req, text, want_status)
     if ctype == "application/json":
         try:
             d = json.loads(text)
         except Exception as ex:  # noqa
             return ("json:invalid", "body is not JSON: %r (%r)" % (ex, text[:200]))
-        wantd = {"message": ref_message(cls, case, serving_headers(cls, e, resp), req), "code": want_status, "title": cls.title}
+        if loose(case):
+            return None if isinstance(d, dict) else ("json:invalid", "JSON body is not an object: %r" % (d,))
+        ref_hs = expected_headers(case)
+        if resolved_location(cls, resp) is not None:
+            ref_hs = [h for h in ref_hs if h[0].lower() != "location"] + [("Location", resolved_location(cls, resp))]
+        msg = ref_message(cls, case, ref_hs, req)
+        wantd = {"message": msg, "code": want_status, "title": ef["title"]}
+        if case.get("json_formatter") or any(a[0] == "json_formatter" for a in case.get("after") or []):
+            wantd = {"m": msg, "s": want_status, "t": ef["title"], "p": req.environ.get("PATH_INFO")}
         if d != wantd:
             return ("json:wrong-content", "JSON body %r, expected %r" % (d, wantd))
         return None
@@ -704,7 +1139,17 @@ def oracle_resp(case, cls, e, req, resp, check_made=True):
     return None
 
 
-def oracle_html(case, cls, loc, req, text):
+_MOVES = []
+
+
+def MOVE_NAMES():
+    if not _MOVES:
+        from webob import exc
+        _MOVES.extend(n for n in class_names() if issubclass(getattr(exc, n), exc._HTTPMove))
+    return _MOVES
+
+
+def oracle_html(case, cls, loc, req, text, want_status):
     ncase, table = neutral_of(case, loc, req)
     try:
         _, _, _, nresp = run_case(ncase)
@@ -713,15 +1158,17 @@ def oracle_html(case, cls, loc, req, text):
     if nresp.content_type != "text/html":
         return ("format-choice:neutral", "neutral instantiation was not served as HTML")
     ntext = nresp.body.decode("utf-8")
-    if "%d %s" % (cls.code, cls.title) not in text:
+    if want_status not in text:
         return ("html:status-missing", "the HTML form does not carry the status line: %r" % text[:200])
+    if declared_safe(case):
+        return None          # an object with __html__ is inserted as the markup it declares: by design
     ev, nev = events(text), events(ntext)
     if skeleton(ev) != skeleton(nev):
         which = culprit(case)
         return ("html:boundary-introduced:" + which,
                 "tag/attribute/comment structure differs from the neutral instantiation: %r vs %r; body %r"
                 % (skeleton(ev)[:12], skeleton(nev)[:12], text[:400]))
-    if all(is_clean(v) for v in table.values()):
+    if not loose(case) and all(is_clean(v) for v in table.values()):
         exp = subst_markers(nev, table)
         got = [[x[0], html.unescape(x[1])] if x[0] == "comment" else x for x in ev]
         if got != exp:
@@ -732,10 +1179,15 @@ def oracle_html(case, cls, loc, req, text):
 
 def culprit(case):
     """which slot breaks the structure (tried one at a time)"""
-    for slot_name in ("detail", "comment", "location", "headers", "environ", "method", "accept"):
+    for slot_name in ("detail", "comment", "location", "headers", "environ", "method", "accept", "after", "sub"):
         c2 = dict(case)
         c2.pop("fmt", None)
-        if slot_name in ("headers",):
+        c2.pop("history", None)
+        if slot_name in ("after", "sub"):
+            if not case.get(slot_name):
+                continue
+            c2.pop(slot_name)
+        elif slot_name in ("headers",):
             c2["headers"] = [[k, "v"] for k, _ in case.get("headers") or []]
         elif slot_name == "environ":
             c2["environ"] = {k: "v" for k in (case.get("environ") or {})}
@@ -770,12 +1222,6 @@ def step_case(case, st):
     return c
 
 
-def answer(e, req, via):
-    if via == "generate_response":
-        return req.get_response(e.generate_response)
-    return req.get_response(e)
-
-
 def peek(e, what):
     """reading the exception's own body between calls (it is a Response)"""
     try:
@@ -795,7 +1241,7 @@ def run_history(case):
         sc = step_case(case, st)
         peek(e, st.get("peek"))
         req = build_req(sc)
-        out.append((sc, req, answer(e, req, st.get("via"))))
+        out.append((sc, req, answer(e, req, st.get("via") or case.get("iface"))))
     return cls, e, out
 
 
@@ -824,7 +1270,7 @@ def oracle_history(case):
         try:
             cls2, e2 = build_exc(case)
             req2 = build_req(sc)
-            fresh = answer(e2, req2, via)
+            fresh = answer(e2, req2, via or case.get("iface"))
         except Exception as ex:  # noqa
             bad.append(("raises:fresh-" + type(ex).__name__, "fresh instance raised %r" % ex))
             break
@@ -861,8 +1307,11 @@ def is_move(name):
     return issubclass(getattr(exc, name), exc._HTTPMove)
 
 
-def rand_history(rng, names, wf_only=True):
-    base = rand_case(rng, names, wf_only=wf_only)
+def rand_history(rng, names, wf_only=True, outside=False):
+    base = rand_case(rng, names, wf_only=wf_only, outside=outside)
+    if base.get("body_how") == "app_iter_gen":
+        base["body_how"] = "app_iter2"          # a generator body can be sent once only
+    bodyless = effective(base)["empty"]
     for k in ("accept", "fmt", "method"):
         base.pop(k, None)
     env0 = base.pop("environ", None) or {}
@@ -881,7 +1330,7 @@ def rand_history(rng, names, wf_only=True):
             if base.get("add_slash") and "QUERY_STRING" in st["environ"]:
                 st["environ"]["QUERY_STRING"] = st["environ"]["QUERY_STRING"].replace("\r", "").replace("\n", "")
         r = rng.random()
-        if r < 0.15 and base.get("body") is None and not is_move(base["cls"]):
+        if r < 0.15 and base.get("body") is None and not is_move(base["cls"]) and not bodyless:
             # (a redirect resolves its Location in __call__; generate_response alone is not its interface)
             st["via"] = "generate_response"
         if rng.random() < 0.2:
@@ -897,6 +1346,7 @@ def history_literal(case):
     """Coq input of the `history` correspondence; only plain req.get_response(exc) steps.  The model starts from
     the header list of the instance as constructed; the location resolved for each request (an input of the model)
     is taken from what a brand-new instance emits for that request."""
+    ocl, tmpl, detail, comment, explicit = instance_literals(case)
     cls, e0 = build_exc(case)
     hs = [(k, v) for k, v in e0.headers.items()]
     rs = []
@@ -910,17 +1360,14 @@ def history_literal(case):
         rs.append("(%s, %s, %s, %s)" % (clist(cpair(cstr(k), cstr(v)) for k, v in environ), c_accept(acc),
                                         cbool(req.environ["REQUEST_METHOD"] == "HEAD"),
                                         copt(None if loc is None else cstr(loc))))
-    body = case.get("body")
-    return "(%s, %s, %s, %s, %s, %s, %s)" % (
-        cstr(case["cls"]), copt(None if case.get("tmpl") is None else cstr(case["tmpl"])), cstr(case.get("detail") or ""),
-        cstr(case.get("comment") or ""), clist(cpair(cstr(k), cstr(v)) for k, v in hs),
-        copt(None if body is None else cstr(bytes.fromhex(body))), clist(rs))
+    return "(%s, %s, %s, %s, %s, %s, %s, %s)" % (
+        cstr(case["cls"]), ocl, tmpl, detail, comment, clist(cpair(cstr(k), cstr(v)) for k, v in hs), explicit, clist(rs))
 
 
-HIST_FN = ("(fun c => match c with (nm, t, d, cm, hs, ex, rs) => match find_class classes nm with "
-           "Some cl => VList (map resp_val (history cfg (with_template cl t) d cm ex hs "
-           "(map (fun r => match r with (env, a, hd, loc) => mkReq env a hd loc end) rs))) | None => VNone end end)")
-HIST_TY = ("(str * option str * str * str * list (str * str) * option str * "
+HIST_FN = ("(fun c => match c with (nm, ocl, t, d, cm, hs, ex, rs) => match %s with "
+           "Some cl => VList (map resp_val (history cfg cl d cm ex hs "
+           "(map (fun r => match r with (env, a, hd, loc) => mkReq env a hd loc end) rs))) | None => VNone end end)" % PICK_CLS)
+HIST_TY = ("(str * option excls * option str * str * str * list (str * str) * option str * "
            "list (list (str * str) * accept_in * bool * option str))")
 
 
@@ -1078,6 +1525,8 @@ def run(ctx):
     for nm in names:
         for j in range(per_class):
             c = rand_case(rng, [nm], want=["text/html", "text/html", "application/json", "text/plain", None][j % 5])
+            if not in_model_domain(c):
+                continue        # (arbitrary templates here: the oracle streams, with well-formed templates, cover these knobs)
             out = observe(c)
             if isinstance(out, Err):
                 if c.get("location") is not None:
@@ -1107,6 +1556,9 @@ def run(ctx):
         c = rand_history(rng, names, wf_only=False)
         for st in c["history"]:
             st.pop("via", None)
+        if not in_model_domain(c):
+            continue
+        c.pop("iface", None)
         out = observe_history(c)
         if isinstance(out, Err):
             for res in oracle_history(c):
@@ -1155,7 +1607,7 @@ def run(ctx):
                     report(ctx, res, c, "history")
     m = ctx.scale(1200, 20000)
     for _ in range(m):
-        c = rand_history(r2, names)
+        c = rand_history(r2, names, outside=True)
         for res in oracle_history(c):
             report(ctx, res, c, "history")
     ctx.oracle_count("history", cnt + m, cnt + m)
@@ -1193,6 +1645,57 @@ def run(ctx):
                 if res:
                     report(ctx, res, c, "slots")
     ctx.oracle_count("slots", cnt, nt)
+    # (a') configurations, argument shapes, values outside the model's domain - deterministic part
+    cnt = 0
+    forms3 = (("text/html", "text/html"), ("application/json", "application/json"), ("text/plain", "x/y"))
+    full = set(names if ctx.thorough else ["HTTPNotFound", "HTTPFound", "HTTPMethodNotAllowed", "HTTPBadRequest", "HTTPNoContent",
+                                            "WSGIHTTPException", "HTTPNotAcceptable", "HTTPInternalServerError"])
+    for nm in names:
+        for fmt, acc in (forms3 if nm in full else forms3[:1]):
+            knob_cases = [
+                {"sub": {"explanation": 'a <b>bold</b> "claim" & \'more\' -->', "code": 499, "title": "Custom Reason"}},
+                {"after": [["explanation", "<script>x</script>"], ["detail", "<after>"], ["comment", "--><i>"]]},
+                {"after": [["body_template", "<p title=\"${x_hdr}\">${detail}</p>${html_comment}"], ["header", "X_HDR", '"><u>']]},
+                {"headers": [["X_Hdr", "<a>"], ["x_hdr", '"<b>']], "headers_shape": "multidict", "tmpl": "<i title='${x_hdr}'>$x_hdr </i>"},
+                {"headers": [["X_Hdr", "'<c>"]], "headers_shape": "dict", "tmpl": "<i title='${x_hdr}'>.</i>", "positional": True},
+                {"tmpl": _default_template(), "environ": {"detail": "<env-detail>", "html_comment": "--><b>"}},
+                {"sub": {"default_content_type": None, "default_charset": None}, "detail": "d\xe9<"},
+                {"after": [["status", "%d Nothing Here" % (getattr(__import__("webob.exc").exc, nm).code or 500)]]},
+            ]
+            if nm not in MOVE_NAMES():
+                knob_cases += [{"kw": {"content_type": "application/xml", "charset": "latin-1"}, "detail": "\xe9<"},
+                               {"json_formatter": True}, {"iface": "middleware"}, {"iface": "raise"}]
+            for extra in knob_cases:
+                c = {"cls": nm, "detail": "<d>", "comment": "c-->", "method": "GET", "accept": acc, "fmt": fmt}
+                c.update(extra)
+                if nm in MOVE_NAMES():
+                    c["location"] = '/l"<'
+                cnt += 1
+                res = oracle_case(c)
+                if res:
+                    report(ctx, res, c, "knobs")
+    for nm in ["HTTPNotFound", "HTTPFound", "HTTPMethodNotAllowed", "HTTPBadRequest"]:
+        for v in OUTSIDE_VALUES:
+            for fmt, acc in forms3:
+                for slot_ in ("detail", "comment", "environ"):
+                    c = {"cls": nm, "detail": "d", "comment": "c", "method": "GET", "accept": acc, "fmt": fmt,
+                         "tmpl": "<p title=\"${HTTP_X_FOO}\">${detail}</p><!-- ${comment} -->${html_comment}"}
+                    if slot_ == "environ":
+                        c["environ"] = {"HTTP_X_FOO": v}
+                    else:
+                        c[slot_] = v
+                    cnt += 1
+                    res = oracle_case(c)
+                    if res:
+                        report(ctx, res, c, "knobs")
+    for loc in ["/x\r\nSet-Cookie: a=b", "\n", "http://e/\r"]:
+        for nm in MOVE_NAMES():
+            for pos in (False, True):
+                cnt += 1
+                res = oracle_case({"cls": nm, "location": loc, "positional": pos, "accept": "text/html", "fmt": "text/html"})
+                if res:
+                    report(ctx, res, {"cls": nm, "location": loc, "positional": pos}, "knobs")
+    ctx.oracle_count("knobs", cnt, cnt)
     # (b) exhaustive short strings over the core alphabet in detail / comment / a custom-template slot
     cnt = 0
     depth = ctx.scale(2, 3)
@@ -1222,7 +1725,7 @@ def run(ctx):
     m = ctx.scale(2500, 120000)
     nt = 0
     for _ in range(m):
-        c = rand_case(r2, names, wf_only=True)
+        c = rand_case(r2, names, wf_only=True, outside=True)
         if c.get("method") != "HEAD":
             nt += 1
         res = oracle_case(c)
